@@ -69,11 +69,15 @@ def gen_history(case, rng, length, arrays=False):
     if arrays:
         # array-valued arguments: a square matrix, its transposed VIEW (same buffer, same shape, other content) and an
         # equal Fortran-ordered copy - equal arguments must hit, unequal ones must not
-        for n, r in enumerate(case["roots"]):
-            a = np.arange(4).reshape(2, 2) + 10 * n
-            alpha[r] = [a, a.T, np.asfortranarray(a)]
+        # symbolic references, resolved to fresh objects by every application of the history (make_objects)
+        for r in case["roots"]:
+            alpha[r] = [["@", r, k] for k in range(4)]
     for _ in range(length):
         x = rng.random()
+        if arrays and hist and alpha and rng.random() < 0.15:
+            r = rng.choice(sorted(alpha))
+            hist.append({"op": "mutate-argument-in-place", "root": r, "item": f"{r}L{len(hist)}"})
+            continue
         if x < 0.70 or not hist:
             out = rng.choice(outs)
             roots = sorted(daggen.needed_roots(case, out))
@@ -140,7 +144,10 @@ def possible_values(case, out, K, states, cap=600):
                         argsets.append(set())
                 for combo in itertools.islice(itertools.product(*argsets), cap):
                     t = daggen.call_term(f, dict(zip(f["params"], combo)), pfx)
-                    res.add(t if len(f["outs"]) == 1 else f"{t}#{k}")
+                    if f.get("ret") and k == 0:
+                        res.add(str(probes.FALSY[f["ret"]]))  # values are compared through str()
+                    else:
+                        res.add(t if len(f["outs"]) == 1 else f"{t}#{k}")
                     if len(res) > cap:
                         break
         memo[name] = res
@@ -149,7 +156,22 @@ def possible_values(case, out, K, states, cap=600):
     return vals(out)
 
 
+def make_objects(case):
+    """Fresh argument objects for one application of a history: per root a square matrix, its transposed VIEW (same
+    buffer and shape, other content), an equal Fortran-ordered copy, and a list that the history mutates in place."""
+    objs = {}
+    for n, r in enumerate(case["roots"]):
+        a = np.arange(4).reshape(2, 2) + 10 * n
+        objs[r] = [a, a.T, np.asfortranarray(a), [f"{r}L0"]]
+    return objs
+
+
+def resolve(K, objs):
+    return {k: (objs[x[1]][x[2]] if isinstance(x, list) and len(x) == 3 and x[0] == "@" else x) for k, x in K.items()}
+
+
 def apply_history(v, case, hist, cached, cache_type, scratch, tag, desc_w):
+    objs = make_objects(case)
     plog, qlog = probes.new_log(scratch, "p"), probes.new_log(scratch, "q")
     with quiet():
         P = build(case, plog, cached, cache_type, scratch, tag)
@@ -165,8 +187,12 @@ def apply_history(v, case, hist, cached, cache_type, scratch, tag, desc_w):
     hits = 0
     for step, op in enumerate(hist):
         w = dict(desc_w, step=step, op=op, history=hist[: step + 1])
+        if op["op"] == "mutate-argument-in-place":
+            objs[op["root"]][3].append(op["item"])  # later calls pass the SAME list object, now with other content
+            v.count("arguments_mutated_in_place")
+            continue
         if op["op"] == "call":
-            out, K = op["out"], op["K"]
+            out, K = op["out"], resolve(op["K"], objs)
 
             def call(p, log):
                 probes.log_clear(log)
@@ -196,11 +222,11 @@ def apply_history(v, case, hist, cached, cache_type, scratch, tag, desc_w):
                 current = (dict(defaults), {k: dict(x) for k, x in bound.items()}, dict(prefix))
                 for st0, mk in old_states:
                     # explained by results cached before ONE mutation of kind mk (mixed with fresh ones)?
-                    if p[1] in possible_values(case, out, K, [st0, current]):
+                    if str(p[1]) in possible_values(case, out, K, [st0, current]):
                         sig = f"stale-after-mutation:{mk}"
                         break
                 else:
-                    if old_states and p[1] in possible_values(case, out, K, [s0 for s0, _ in old_states] + [current]):
+                    if old_states and str(p[1]) in possible_values(case, out, K, [s0 for s0, _ in old_states] + [current]):
                         sig = "stale-after-mutation:several"
                 v.bad(sig, f"cached pipeline returned {p[1]!r:.160}, uncached twin {q[1]!r:.160}", **w)
                 return hits
@@ -259,8 +285,10 @@ def apply_history(v, case, hist, cached, cache_type, scratch, tag, desc_w):
 
 def run_hist(v, desc, scratch, keys):
     for i in range(desc["start"], desc["start"] + desc["n"]):
-        case = daggen.case_from_seed(desc["seed"], i, max_funcs=5, p_ign=0.0)
+        case = daggen.case_from_seed(desc["seed"], i, max_funcs=5, p_ign=0.0, p_falsy=0.25 if i % 2 else 0.0)
         rng = random.Random(f"c09:{desc['seed']}:{i}")
+        if any(f.get("ret") for f in case["funcs"]):
+            v.count("cases_with_none_or_falsy_results")
         names = [f["name"] for f in case["funcs"]]
         for h in range(desc["hists"]):
             cached = {n for n in names if rng.random() < 0.6} or {names[-1]}
@@ -370,6 +398,10 @@ def finalize(agg, tier, seed):
         floors.append("fewer than 200 histories mixing root-only and intermediate-supplying calls")
     if c.get("histories_with_mutation", 0) < 200:
         floors.append("fewer than 200 histories with a mutation")
+    if c.get("arguments_mutated_in_place", 0) < 100:
+        floors.append("fewer than 100 in-place mutations of an argument object between calls")
+    if c.get("cases_with_none_or_falsy_results", 0) < 30:
+        floors.append("fewer than 30 cases with functions returning None / falsy values")
     if c.get("histories_with_array_arguments", 0) < 100:
         floors.append("fewer than 100 histories with array-valued arguments")
     if c.get("immediate_repeats", 0) < 500:
